@@ -20,6 +20,7 @@ EXPLANATION = (
     "(schedule independence); every chain took exactly the requested number of steps; after shutdown every worker has "
     "left its loop. ParallelTempering.advance(n, swap_interval): AST-encoded (pyint), total steps == n and swap rounds == "
     "n // swap_interval for all n >= 0, swap_interval = 1..64."
+    ' Two exchange rounds in a row; arbitrary ladders (any order, repeated temperatures); hand-back order of return_chains under every delivery order.'
 )
 BOUNDS = {"quick": "pairings: 1..10 chains (tight), 1..7 (uniform); exchanges / scheduling: <=3 chains, <=6 (2 chains) / <=4 (3 chains) scheduling choice points per path (later switches follow the canonical order); advance: all n>=0, swap_interval 1..64",
           "thorough": "4-5 chains for pairing, 2 chains with 10 / 3 chains with 6 scheduling choice points"}
